@@ -12,7 +12,7 @@ def run(ctx):
         scenarios = [json.load(open(ctx.replay))["scenario"]]
         counts = {}
     else:
-        scenarios, counts = storelib.programs(ctx, "example", 2, thorough, 4000 if thorough else 60, 40)
+        scenarios, counts = storelib.programs(ctx, "example", 2, thorough, 2500 if thorough else 60, 40)
     ctx.stage("generate")
     accepted, scs, lines = connlib.run_scenarios(ctx, scenarios, "c18")
     groups = connlib.report(ctx, accepted, scs, lines, None, max_diag=80)
